@@ -50,6 +50,7 @@ type Contract struct {
 	Reveal    []string
 	Lets      map[string]ast.Expr
 	Assumes   []*Clause // trusted postconditions: assumed at call sites, never proved, listed in the evidence
+	Unreachable string // `unreachable <reason>`: the body is not verified; every caller must be excluded by a precondition
 	Globals   []string  // `globals a.X b.Y`: the only package-level variables the function may write (transitively)
 	HasGlobals bool
 	Defines   []*Clause // conservative definitions of otherwise uninterpreted predicates: assumed at entry of the function
@@ -369,6 +370,11 @@ func (e *Engine) parseContractFile(file, pkg string) error {
 			cur.HasGlobals = true
 			for _, g := range strings.Fields(rest) {
 				cur.Globals = append(cur.Globals, "G_"+sanitize(strings.Replace(g, ".", "_", 1)))
+			}
+		case "unreachable":
+			cur.Unreachable = strings.TrimSpace(rest)
+			if cur.Unreachable == "" {
+				cur.Unreachable = "declared"
 			}
 		case "reveal":
 			cur.Reveal = append(cur.Reveal, strings.Fields(rest)...)
